@@ -175,6 +175,18 @@ Definition is_response_to (m : cmsg) (sent : val) (body_len : option N) : bool :
   end.
 Definition ack_value (sent : val) : N :=
   match sent with VL [VH h; _] => u (hex_bytes h) 12 8 | _ => 99 end.
+(* C01: the answer to GET_CONFIG is the requested window - same offset, the requested size, that many payload bytes -
+   or the protocol's failure form: size 0 and no payload *)
+Definition config_reply_ok (m : cmsg) (sent : val) : bool :=
+  match sent with
+  | VL [VH h; _] =>
+      let b := hex_bytes h in
+      let want := u (m_body m) 4 4 in
+      let plen := N.of_nat (List.length b - 24) in
+      Nat.leb 24 (List.length b) && (u b 12 4 =? u (m_body m) 0 4)
+      && (((u b 16 4 =? want) && (plen =? want)) || ((u b 16 4 =? 0) && (plen =? 0)))
+  | _ => false
+  end.
 Definition call_name (c : val) : string := match c with VL (VS n :: _) => n | _ => "" end.
 
 (* walk the clean history; [results], [calls], [sent] are what the implementation showed.
@@ -214,6 +226,10 @@ Fixpoint walk (cfg_features : N) (s : nstate) (msgs : list cmsg) (results : list
             | [] => 4
             | c :: cs =>
                 and_then (fds_as_prescribed m) 5 (
+                (* C05: a configuration request is served only when the bytes after its 12-byte descriptor are exactly as
+                   many as the descriptor declares *)
+                and_then (negb ((m_code m =? 24) || (m_code m =? 25))
+                          || (N.of_nat (List.length (m_body m) - 12) =? u (m_body m) 4 4)) 5 (
                 and_then (String.eqb (call_name c) (ri_name info)) 4
                   (let s' :=
                     if m_code m =? 1 then
@@ -228,7 +244,8 @@ Fixpoint walk (cfg_features : N) (s : nstate) (msgs : list cmsg) (results : list
                           (* C07: the answer to GET_PROTOCOL_FEATURES always offers REPLY_ACK, whatever the device offers
                              and whatever was negotiated before *)
                           and_then (negb (m_code m =? 15) || hasb (ack_value x) PF_REPLY_ACK) 7
-                            (and_then (is_response_to m x None) 4 (walk cfg_features s' ms rs cs xs))
+                            (and_then (negb (m_code m =? 24) || config_reply_ok m x) 1
+                               (and_then (is_response_to m x None) 4 (walk cfg_features s' ms rs cs xs)))
                       | [] => 4
                       end
                     else walk cfg_features s' ms rs cs sent
@@ -239,7 +256,7 @@ Fixpoint walk (cfg_features : N) (s : nstate) (msgs : list cmsg) (results : list
                                  (walk cfg_features s' ms rs cs xs)
                     | [] => 4
                     end
-                  else walk cfg_features s' ms rs cs sent))
+                  else walk cfg_features s' ms rs cs sent)))
             end
           else
             (* refused (malformed body, wrong descriptors, ...): no invocation; a failure
@@ -301,6 +318,7 @@ Definition be_spec (args : list val) : val :=
         end in
       if negb c05 then VS "false:C05"
       else if negb c09 then VS "false:C09"
+      else if c0407 =? 1 then VS "false:C01"
       else if c0407 =? 4 then VS "false:C04"
       else if c0407 =? 7 then VS "false:C07"
       else if c0407 =? 5 then VS "false:C05"
